@@ -241,6 +241,15 @@ def nav_of_dict(d, depth):
     return ((size, height, depth, leaves, size - 1, not kids), kids)
 
 
+def alias_equal(d, memo):
+    """The same nesting, but sub-dictionaries that are equal are one and the same object (a template used at several places)."""
+    out = dict(d)
+    if "children" in out:
+        out["children"] = [alias_equal(c, memo) for c in out["children"]]
+    key = repr(out)
+    return memo.setdefault(key, out)
+
+
 def add_empty_children(d):
     d = dict(d)
     if "children" in d:
@@ -318,7 +327,8 @@ def check_tree(t, shape, assign, kinds=("anynode", "node", "user"), only=None):
         # import side -----------------------------------------------------------------------
         d = DictExporter().export(nodes[0])
         dcut = DictExporter(maxlevel=2).export(nodes[0])
-        for variant, dd in (("exported", d), ("with empty children lists", add_empty_children(d)), ("exported with maxlevel=2", dcut)):
+        for variant, dd in (("exported", d), ("with empty children lists", add_empty_children(d)), ("exported with maxlevel=2", dcut),
+                            ("with shared sub-dictionaries", alias_equal(d, {}))):
             for nodecls_name in ("anynode", "node", "user", "container", "anyhook"):
                 if nodecls_name == "node" and kind != "node":
                     continue  # Node needs a name in every dictionary
